@@ -229,6 +229,35 @@ def image_names_oracle(b, report):
                     stack.append((c, p))
 
 
+def too_many_directories(ctx):
+    """a directory whose path-table number exceeds 65535 and that has a sub-directory: the 16-bit parent number of the child
+    cannot be recorded -- the edit must be refused, not accepted with the image unwritable"""
+    import pycdlib
+    for ns in (['jol'] if ctx.tier == 'quick' else ['jol', 'iso']):
+        iso = pycdlib.PyCdlib()
+        iso.new(interchange_level=3, joliet=3)
+        kw = 'joliet_path' if ns == 'jol' else 'iso_path'
+        up = (lambda x: x) if ns == 'jol' else (lambda x: x.upper())
+        refused = None
+        try:
+            for a in range(256):
+                iso.add_directory(**{kw: up('/a%03d' % a)})
+                for b in range(256):
+                    iso.add_directory(**{kw: up('/a%03d/b%03d' % (a, b))})
+            iso.add_directory(**{kw: up('/a255/b255/child')})
+        except pycdlib.pycdlibexception.PyCdlibInvalidInput as e:
+            refused = e
+        ctx.case(('too-many-dirs', ns, refused is not None), True)
+        if refused is None:
+            try:
+                iso.write_fp(io.BytesIO())
+            except Exception as e:
+                ctx.violation('c13:too-many-directories:%s:write-fails' % ns,
+                              'C13: 65794 %s directories are accepted, then the image cannot be written: %s: %s (the parent directory number of a path '
+                              'table record is a 16-bit field)' % (ns, type(e).__name__, str(e)[:80]), {'namespace': ns, 'directories': 65794})
+        iso.close()
+
+
 def run(ctx):
     common.proof_stage(ctx, MODULE, common.theorems_of(MODULE))
     common.setup_impl_path()
@@ -305,6 +334,7 @@ def run(ctx):
             if out == 'refused':
                 break
         iso.close()
+    too_many_directories(ctx)
     # (3) identifiers of written images
     sysprops.run_oracle(ctx, 'C13', sysprops.histories(ctx, 80 if quick else 1500, ['reloc_same_names', 'deep_tree'], dict(allow_refusals=True, refusal_bias=0.2),
                                                        nops=(5, 30)), image_names_oracle, need_reopen=False, max_shrink=3,
